@@ -1,13 +1,13 @@
 ---------------------------- MODULE MC_Universe ----------------------------
 (* Dumps a universe (selected by the environment variable UNIVERSE) as ND-JSON to the file OUT. *)
-EXTENDS Universe, Classics, TLC, Json, IOUtils
+EXTENDS Universe, Classics, TLC, Json, IOUtils, SequencesExt
 Pick == CASE IOEnv.UNIVERSE = "U1" -> U1
           [] IOEnv.UNIVERSE = "U2" -> U2
           [] IOEnv.UNIVERSE = "U3a" -> U3a
           [] IOEnv.UNIVERSE = "U3b" -> U3b
           [] IOEnv.UNIVERSE = "classics" -> ClassicSet
 ToRec(G) == [nts |-> SetAsSeq(G.nts), ts |-> SetAsSeq(G.ts), start |-> G.start, rules |-> G.rules]
-ASSUME LET S == SetAsSeq({ ToRec(G) : G \in Pick }) IN
+ASSUME LET S == SetToSeq({ ToRec(G) : G \in Pick }) IN
    /\ ndJsonSerialize(IOEnv.OUT, S)
    /\ PrintT(<<"UNIVERSE", IOEnv.UNIVERSE, Len(S)>>)
 VARIABLE x
